@@ -5,6 +5,7 @@ import (
 	"encoding/json"
 	"fmt"
 	"strings"
+	"sync"
 	"time"
 
 	ipfslog "berty.tech/go-ipfs-log"
@@ -12,9 +13,12 @@ import (
 	"berty.tech/go-ipfs-log/identityprovider"
 	"berty.tech/go-ipfs-log/io/cbor"
 	orbitdb "berty.tech/go-orbit-db"
+	"berty.tech/go-orbit-db/accesscontroller"
 	"berty.tech/go-orbit-db/iface"
+	"berty.tech/go-orbit-db/stores"
 	"berty.tech/go-orbit-db/stores/operation"
 	cid "github.com/ipfs/go-cid"
+	"github.com/libp2p/go-libp2p/p2p/host/eventbus"
 	"verif/harness/model"
 	"verif/harness/world"
 )
@@ -35,6 +39,41 @@ type hostileEnv struct {
 	cnt     int
 	hostile map[string]string // hash -> description, must never be merged
 	crafted map[string]*entry.Entry
+
+	evMu  sync.Mutex
+	evBad string // first replicated event that announced an entry the store did not hold at that moment
+	evN   int    // replicated events seen by the watcher
+}
+
+// watchReplicated subscribes to the victim's replicated events and checks, at
+// the moment each one is received, that every entry it announces is in the
+// victim's log (C16: an event is never ahead of, or beside, the state it announces).
+func (env *hostileEnv) watchReplicated() (stop func(), err error) {
+	v := env.victim()
+	sub, err := v.EventBus().Subscribe(new(stores.EventReplicated), eventbus.BufSize(256))
+	if err != nil {
+		return nil, err
+	}
+	done := make(chan struct{})
+	go func() {
+		defer close(done)
+		for ev := range sub.Out() {
+			r, ok := ev.(stores.EventReplicated)
+			if !ok {
+				continue
+			}
+			env.evMu.Lock()
+			env.evN++
+			for _, e := range r.Entries {
+				if _, held := v.OpLog().Get(e.GetHash()); !held && env.evBad == "" {
+					env.evBad = fmt.Sprintf("a replicated event announced entry %s which the store does not hold (log length %d, event says %d)",
+						short(e.GetHash().String()), v.OpLog().Len(), r.LogLength)
+				}
+			}
+			env.evMu.Unlock()
+		}
+	}()
+	return func() { _ = sub.Close(); <-done }, nil
 }
 
 type hostileOpts struct {
@@ -43,6 +82,7 @@ type hostileOpts struct {
 	VictimWrites  bool  // victim is in the write list
 	WriteList     []int // nil: authors (+victim); explicit peer indices otherwise; -1 = "*"
 	DefaultAC     bool  // no access-controller options at creation: creator only
+	SharedOpts    bool  // the victim first opens a sibling database with the wildcard list, then this one, with the same options value
 }
 
 func newHostileEnv(ctx context.Context, o hostileOpts) (*hostileEnv, error) {
@@ -69,7 +109,20 @@ func newHostileEnv(ctx context.Context, o hostileOpts) (*hostileEnv, error) {
 	}
 	env := &hostileEnv{cl: cl, typ: o.Type, A: A, V: A, X: A + 1, C: A + 2, tr: newTracker(), hostile: map[string]string{}, crafted: map[string]*entry.Entry{}}
 	// victim: replication on
-	s, err := cl.W.Peers[env.V].DB.Open(ctx, cl.Addr, &orbitdb.CreateDBOptions{})
+	vopts := &orbitdb.CreateDBOptions{}
+	if o.SharedOpts {
+		pub, err := cl.W.Peers[0].DB.Create(ctx, "public-sibling", o.Type, &orbitdb.CreateDBOptions{Replicate: &no,
+			AccessController: &accesscontroller.CreateAccessControllerOptions{Access: map[string][]string{"write": {"*"}}}})
+		if err != nil {
+			cl.Close()
+			return nil, err
+		}
+		if _, err := cl.W.Peers[env.V].DB.Open(ctx, pub.Address().String(), vopts); err != nil {
+			cl.Close()
+			return nil, err
+		}
+	}
+	s, err := cl.W.Peers[env.V].DB.Open(ctx, cl.Addr, vopts)
 	if err != nil {
 		cl.Close()
 		return nil, err
